@@ -36,6 +36,7 @@ class Ctx:
         self.hyp = {}         # key(value term) -> (R cosh, R sinh)
         self.rules = []       # rewrite rules (name, k, num term, den term): name^k * den = num
         self.reduce = True
+        self.hint_timeout = 8000
         self.nf_closed = 0
         self.nfcache = {}
         self.defines = {}     # constraint id -> explicit set of variable names it defines (for slicing)
@@ -97,7 +98,7 @@ def _rv(c):
 
 
 PI_T = z3.Real("PI")
-PI_BOUNDS = [PI_T > z3.RealVal("3.14159265358979"), PI_T < z3.RealVal("3.14159265358980")]
+PI_BOUNDS = [PI_T > z3.RealVal("3.14"), PI_T < z3.RealVal("3.15")]
 
 
 # --------------------------------------------------------------------------- symbolic bool
@@ -325,6 +326,12 @@ class R:
             lin = s._scale(o)
         elif o.lin is not None and s.lin is None:
             lin = o._scale(s)
+        elif s.lin is not None and o.lin is not None:
+            # angle * (pure multiple of pi): pi acts as a plain factor (degrees <-> radians conversions)
+            if not o.lin[0] and o.lin[2] is None:
+                lin = s._scale(R(o.coef, dict(o.f)))
+            elif not s.lin[0] and s.lin[2] is None:
+                lin = o._scale(R(s.coef, dict(s.f)))
         c = s.coef * o.coef
         if c == 0:
             return R(Fr(0), {})
@@ -816,22 +823,29 @@ def half_atom(a):
 
 def real_mod(s, o):
     """Python float % on reals: s = o*k + r, k integer, 0 <= r < o (o > 0 assumed via sign proof or constant)"""
-    k = CTX.fresh_int("k")
-    r = CTX.fresh("mod")
     sn, sd = s.num_den()
     on, od = o.num_den()
+    kk = "mod:" + z3.simplify(sn * z3.Real("__k1") - sd * z3.Real("__k2"), som=True).sexpr() + "|" + \
+         z3.simplify(on * z3.Real("__k1") - od * z3.Real("__k2"), som=True).sexpr()
+    if kk in CTX.roots:
+        return CTX.roots[kk]
+    k = CTX.fresh_int("k")
+    r = CTX.fresh("mod")
     # s = o*k + r  <=>  sn*od = sd*(on*k + r*od)
     CTX.cons += [sn * od == sd * (on * z3.ToReal(k) + r * od), r >= 0, r * od < on]
     res = R.of(r)
     res.pre = s          # value before the reduction (harnesses compare pre-mod values exactly)
+    CTX.roots[kk] = res
     return res
 
 
 def _hint_ok(cand, target):
     g1 = neq(cand * cand, target)
     g2 = cand.sign_term() < 0
+    if z3.is_false(g1) and not cand.f:
+        return cand.coef >= 0
     so = z3.Solver()
-    so.set("timeout", 30000)
+    so.set("timeout", CTX.hint_timeout)
     for c in sliced([g1, g2], CTX.pre) + list(CTX.pre):
         so.add(c)
     so.add(z3.Or(g1, g2))
